@@ -108,6 +108,11 @@ func (vc *VC) execExternal(f *ssa.Function, c *ssa.CallCommon, h *Heap, reach st
 	if !es.NoPanic {
 		vc.safety("ext."+name, reach, "false", "external function "+name+" is not known to be panic-free")
 	}
+	if name == "fmt.Sprintf" {
+		if r, ok := vc.sprintfCall(c, h); ok {
+			return []Term{r}
+		}
+	}
 	var args []Term
 	simple := true
 	for _, a := range c.Args {
@@ -294,4 +299,53 @@ func (vc *VC) execExternalMethod(c *ssa.CallCommon, recv Term, args []Term, h *H
 	// observers: deterministic in the receiver (and the heap epoch is ignored: external state is opaque)
 	res := vc.resultTerms(sig, h, reach, "extm")
 	return res
+}
+
+// variadic elements packed by the compiler into a fresh [N]T array (N small, known)
+func (vc *VC) variadicElems(v ssa.Value, h *Heap) ([]Term, bool) {
+	if cst, ok := v.(*ssa.Const); ok && cst.Value == nil {
+		return nil, true
+	}
+	sl, ok := v.(*ssa.Slice)
+	if !ok || sl.Low != nil || sl.High != nil {
+		return nil, false
+	}
+	al, ok := sl.X.(*ssa.Alloc)
+	if !ok {
+		return nil, false
+	}
+	at, ok := al.Type().Underlying().(*types.Pointer).Elem().Underlying().(*types.Array)
+	if !ok || at.Len() > 6 {
+		return nil, false
+	}
+	comp, es := vc.elemComp(at.Elem())
+	row := app("select", vc.get(h, comp), vc.value(al).S)
+	var out []Term
+	for j := 0; j < int(at.Len()); j++ {
+		out = append(out, mk(app("select", row, fmt.Sprint(j)), es).withType(at.Elem()))
+	}
+	return out, true
+}
+
+func (vc *VC) sprintfTerm(format Term, elems []Term) Term {
+	sorts := []Sort{SStr}
+	args := []string{format.S}
+	for _, e := range elems {
+		sorts = append(sorts, SIface)
+		args = append(args, e.S)
+	}
+	name := fmt.Sprintf("sprintf.%d", len(elems))
+	return mk(app(vc.u.ufun(name, sorts, SStr), args...), SStr).withType(types.Typ[types.String])
+}
+
+func (vc *VC) sprintfCall(c *ssa.CallCommon, h *Heap) (Term, bool) {
+	if len(c.Args) != 2 {
+		return Term{}, false
+	}
+	elems, ok := vc.variadicElems(c.Args[1], h)
+	if !ok {
+		return Term{}, false
+	}
+	t := vc.sprintfTerm(vc.value(c.Args[0]), elems)
+	return mk(vc.define("sprintf", SStr, t.S), SStr).withType(types.Typ[types.String]), true
 }
